@@ -537,6 +537,15 @@ def listing_case(arg, only=None):
             if refs - have:
                 res['violations'].append((f'history:listing-fault:referenced-chunk-missing:{cmd["kind"]}:{where}',
                                           desc + f'; chunks {sorted(refs - have)[:3]} referenced by a snapshot object that is still stored are gone', rp))
+            # ---- C08's reading of the same run: a clean that REPORTS SUCCESS although part of the listing was lost to the fault must still
+            #      have been complete — no chunk object of the caller's family is left that no stored snapshot references (fault removed)
+            if cmd['kind'] == 'clean' and exc is None and not hang and fired and not (bk == 'local' and plan.get('errno') == 'ENOENT'):
+                fam = u.fam
+                left = sorted(c for c in have - refs if c[0] == fam)
+                if left:
+                    res.setdefault('gc_violations', []).append((f'gc:listing-fault:clean-reported-complete-but-orphans-left:{where}',
+                                                                desc + f'; {len(left)} chunk object(s) of the caller\'s family that no stored snapshot references are still '
+                                                                f'there (e.g. {left[:2]})', rp))
             combo['changed'] = after != base
             combo['restored'] = len(stored) if after != base else 0
             # ---- the model's prediction
@@ -591,8 +600,12 @@ def check_listing_tie(combo, drv, out):
     return 0
 
 
-def account(res, out, drv):
-    """evidence counters + oracle findings + tie for one case"""
+def account(res, out, drv, gc=False):
+    """evidence counters + oracle findings + tie for one case (`gc`: C08's reading — completeness of a clean that reports success)"""
+    if gc:
+        for sig, what, rp in res.get('gc_violations', []):
+            out.violation(sig, what, dict(rp, kind='listing'))
+        out.count('listing:clean-completed-under-a-fired-fault', sum(1 for c in res['combos'] if c['command'] == 'clean' and c['fired'] and c['outcome'] is None))
     s = res['summary']
     out.case({k: s[k] for k in ('enc', 'users', 'backend', 'chunking', 'snapshots', 'pairs')}, any(c['nontrivial'] for c in res['combos']))
     out.count('listing-case')
@@ -622,6 +635,7 @@ def account(res, out, drv):
 def replay_listing(rp, drv):
     res = listing_case((rp['seed'], rp['idx'], rp['tier']), only=rp.get('combo'))
     print('summary', {k: v for k, v in res['summary'].items() if k != 'pairs'})
+    res['violations'] = list(res['violations']) + list(res.get('gc_violations', []))
 
     class _C:
         traces_validated = 0
